@@ -17,7 +17,10 @@ use crate::rules::day::{self as ds, WeekNum, Year};
 use crate::rules::time as ts;
 
 #[cfg(feature = "log")]
+#[cfg(not(oh_verif))]
 static WARN_EASTER: std::sync::Once = std::sync::Once::new();
+#[cfg(all(feature = "log", oh_verif))]
+static WARN_EASTER: ::oh_verif_rt::sync::Once = ::oh_verif_rt::sync::Once::new();
 
 #[derive(Parser)]
 #[grammar = "grammar.pest"]
@@ -593,6 +596,8 @@ fn build_date_from(pair: Pair<Rule>) -> ds::Date {
 
     match pairs.peek().expect("empty date (from)").as_rule() {
         Rule::variable_date => {
+            #[cfg(oh_verif)]
+            ::oh_verif_rt::probe("build_date_from:easter");
             #[cfg(feature = "log")]
             WARN_EASTER.call_once(|| log::warn!("Easter is not supported yet"));
             ds::Date::Easter { year }
